@@ -1991,7 +1991,9 @@ impl Element {
     pub fn add_to_file(&self, file: &ArxmlFile) -> Result<(), AutosarDataError> {
         let parent_splittable = self.parent()?.is_none_or(|p| p.element_type().splittable() != 0);
         if parent_splittable {
-            if file.model()? == self.model()? {
+            let model = self.model()?;
+            // the file must (still) be one of the files of the model
+            if file.model()? == model && model.files().any(|f| f == *file) {
                 let weak_file = file.downgrade();
                 // current_fileset is the set of files which contain the current element
                 let (_, current_fileset) = self.file_membership()?;
